@@ -196,6 +196,90 @@ func (p *Prog) CallGraph() *callGraph {
 			}
 		}
 	}
+	// callbacks: a call through a func-typed struct field may reach any
+	// address-taken function of the module's non-harness packages whose
+	// signature matches (type parameters match anything) — the library ships
+	// implementations for its own configuration callbacks (package custom,
+	// AllInOne) that no static edge reaches.
+	var taken []*ssa.Function
+	seenTaken := map[*ssa.Function]bool{}
+	for _, fn := range p.Funcs {
+		for _, b := range fn.Blocks {
+			for _, in := range b.Instrs {
+				var f *ssa.Function
+				if mc, ok := in.(*ssa.MakeClosure); ok {
+					f = p.body(mc.Fn.(*ssa.Function))
+				} else {
+					call, isCall := in.(ssa.CallInstruction)
+					for _, op := range in.Operands(nil) {
+						if g, ok := (*op).(*ssa.Function); ok && !(isCall && call.Common().Value == g) {
+							f = p.body(g)
+						}
+					}
+				}
+				if f != nil && !seenTaken[f] && !isHarnessPkg(funcPkgPath(f)) && !isHarnessPkg(funcPkgPath(fn)) {
+					seenTaken[f] = true
+					taken = append(taken, f)
+				}
+			}
+		}
+	}
+	sigMatch := func(a, b *types.Signature) bool {
+		if a.Params().Len() != b.Params().Len() || a.Results().Len() != b.Results().Len() || a.Variadic() != b.Variadic() {
+			return false
+		}
+		same := func(x, y types.Type) bool {
+			if types.Identical(x, y) {
+				return true
+			}
+			hasTP := func(t types.Type) bool {
+				if pt, ok := t.(*types.Pointer); ok {
+					t = pt.Elem()
+				}
+				_, ok := types.Unalias(t).(*types.TypeParam)
+				return ok
+			}
+			return hasTP(x) || hasTP(y)
+		}
+		for i := 0; i < a.Params().Len(); i++ {
+			if !same(a.Params().At(i).Type(), b.Params().At(i).Type()) {
+				return false
+			}
+		}
+		for i := 0; i < a.Results().Len(); i++ {
+			if !same(a.Results().At(i).Type(), b.Results().At(i).Type()) {
+				return false
+			}
+		}
+		return true
+	}
+	for _, fn := range p.Funcs {
+		for _, b := range fn.Blocks {
+			for _, in := range b.Instrs {
+				call, ok := in.(ssa.CallInstruction)
+				if !ok || call.Common().IsInvoke() {
+					continue
+				}
+				ld, ok := call.Common().Value.(*ssa.UnOp)
+				if !ok {
+					continue
+				}
+				if _, ok := ld.X.(*ssa.FieldAddr); !ok {
+					continue
+				}
+				sig, ok := ld.Type().Underlying().(*types.Signature)
+				if !ok {
+					continue
+				}
+				for _, t := range taken {
+					// closures carry their free variables separately: compare declared signatures
+					if sigMatch(sig, t.Signature) {
+						add(cgEdge{fn, in, t, "callback"})
+					}
+				}
+			}
+		}
+	}
 	for f := range cg.out {
 		es := cg.out[f]
 		sort.SliceStable(es, func(i, j int) bool { return es[i].Site.Pos() < es[j].Site.Pos() })
